@@ -803,6 +803,16 @@ class Body:
                     out.add((("call", bb), ()))
         return out
 
+    def mut_borrowed(self):
+        """locals whose address is taken mutably (they can change behind the analysis' back)"""
+        if getattr(self, "_mutb", None) is None:
+            s_ = set()
+            for i, j, st in self.statements():
+                if st["s"] == "assign" and st["rv"]["r"] in ("ref", "rawptr") and st["rv"].get("mut", True) and not st["rv"]["pl"]["p"]:
+                    s_.add(st["rv"]["pl"]["l"])
+            self._mutb = s_
+        return self._mutb
+
     def agg_at(self, bb, idx):
         return self.blocks[bb]["st"][idx]["rv"]
 
@@ -843,7 +853,7 @@ class Body:
             return ("place", place_str(pl), pl)
         l = pl["l"]
         defs = self.defs().get(l, [])
-        if len(defs) != 1:
+        if len(defs) != 1 or l in self.mut_borrowed():
             return ("place", place_str(pl), pl)
         d = defs[0]
         if d[0] == "call":
